@@ -35,7 +35,7 @@ type meshCase struct {
 var meshOpKinds = []string{
 	"add", "add", "add", "add", "readd", "remove", "remove", "removeabsent", "addmesh",
 	"copy", "copy", "switch", "deepcopy", "translate", "scale", "snap", "xformobj", "invert",
-	"qfind1", "qfind2", "qfind3", "qneighbors", "qneighborsnew", "qvertices", "qitervertices", "qallneighbors", "qminmax", "qfull", "qmapcount",
+	"qfind1", "qfind2", "qfind3", "qneighbors", "qneighborsnew", "qvertices", "qitervertices", "qallneighbors", "qminmax", "qfull", "qmapcount", "iteredit",
 }
 
 func genMeshCase(t *rapid.T) meshCase {
@@ -686,6 +686,45 @@ func checkMeshCase(c meshCase, o *kit.Obs) error {
 			err = s.full()
 		case "qmapcount":
 			err = s.qMapCount()
+		case "iteredit":
+			// documented for Iterate: "If f adds or removes triangles, they will not be visited."
+			start := s.faces()
+			visited := map[*model3d.Triangle]int{}
+			removed := map[*model3d.Triangle]bool{}
+			var added *model3d.Triangle
+			calls := 0
+			s.m.Iterate(func(t *model3d.Triangle) {
+				visited[t]++
+				calls++
+				if calls != 1 {
+					return
+				}
+				for _, idx := range op.I[:3] {
+					f := s.tbl[idx%len(s.tbl)]
+					if s.present[f] && visited[f] == 0 {
+						s.m.Remove(f)
+						s.present[f] = false
+						removed[f] = true
+					}
+				}
+				added = newFace(op.I[3:])
+				s.m.Add(added)
+				s.tbl = append(s.tbl, added)
+				s.present[added] = true
+			})
+			mutated = calls > 0
+			for _, f := range start {
+				want := 1
+				if removed[f] {
+					want = 0
+				}
+				if visited[f] != want && err == nil {
+					err = fmt.Errorf("Iterate visited face %v %d times, want %d (removed by the callback before its turn: %v; %d faces at the start, %d removed during the first call)", *f, visited[f], want, removed[f], len(start), len(removed))
+				}
+			}
+			if added != nil && visited[added] != 0 && err == nil {
+				err = fmt.Errorf("Iterate visited a face that its callback had added")
+			}
 		}
 		for _, x := range live {
 			if err == nil {
